@@ -197,3 +197,31 @@ func (l *lcg) Intn(n int) int {
 	l.s = l.s*6364136223846793005 + 1442695040888963407
 	return int((l.s >> 33) % uint64(n))
 }
+
+// TestTightObjStm: no white space is needed between the index and a first
+// member which starts with a delimiter, nor between such members.
+func TestTightObjStm(t *testing.T) {
+	body := "4 0 5 12<</V(four)>>[/five 5]"
+	file := "%PDF-1.7\n%\xe2\xe3\xcf\xd3\n1 0 obj<</Type/Catalog/Pages 2 0 R>>endobj\n2 0 obj<</Type/Pages/Kids[]/Count 0>>endobj\n"
+	off3 := len(file)
+	file += fmt.Sprintf("3 0 obj<</Type/ObjStm/N 2/First 8/Length %d>>stream\n%s\nendstream endobj\n", len(body), body)
+	off6 := len(file)
+	var rows []byte
+	put := func(tp byte, f2 int, f3 byte) { rows = append(rows, tp, byte(f2>>8), byte(f2), f3) }
+	put(0, 0, 255)
+	put(1, 15, 0)
+	put(1, 15+len("1 0 obj<</Type/Catalog/Pages 2 0 R>>endobj\n"), 0)
+	put(1, off3, 0)
+	put(2, 3, 0)
+	put(2, 3, 1)
+	put(1, off6, 0)
+	file += fmt.Sprintf("6 0 obj<</Type/XRef/Size 7/W[1 2 1]/Root 1 0 R/Length %d>>stream\n%s\nendstream endobj\nstartxref\n%d\n%%%%EOF\n", len(rows), rows, off6)
+	f, err := strict.Parse([]byte(file))
+	if err != nil {
+		t.Fatalf("%v\n%q", err, file)
+	}
+	if !syntax.Equal(f.Objects[4].Value, syntax.D("V", syntax.S([]byte("four")))) ||
+		!syntax.Equal(f.Objects[5].Value, syntax.A(syntax.N("five"), syntax.I(5))) {
+		t.Errorf("members: %v %v", f.Objects[4].Value, f.Objects[5].Value)
+	}
+}
